@@ -281,6 +281,8 @@ func (s *Server) handle(w http.ResponseWriter, r *http.Request) {
 		resp := map[string]any{"sub": "s-" + dg, "active": true, "ok2": false, "level": sc.Level}
 		if sc.ExpHas {
 			resp["not_after"] = sc.Exp.Unix()
+			// the same instant as text without a zone (it is UTC, as the identity provider means it)
+			resp["not_after_text"] = sc.Exp.UTC().Format("2006-01-02 15:04:05")
 		}
 
 		writeJSON(w, resp)
